@@ -194,6 +194,13 @@ def coerce(v, t):
         return V(t, t.mk(t.empty_dom(), z3.Const(fresh_name('dmap'), z3.ArraySort(t.k.sort(), t.v.sort()))))
     if isinstance(t, TSet) and v.py == ('emptyset',):
         return V(t, t.empty())
+    if isinstance(t, TTuple) and isinstance(v.t, TTuple) and len(t.elems) == len(v.t.elems):
+        # a tuple display stored where the contract declares a (named) tuple type: component-wise
+        if v.py and v.py[0] == 'tupitems':
+            items = list(v.py[1])
+        else:
+            items = [V(et, v.t.get(i, v.z)) for i, et in enumerate(v.t.elems)]
+        return V(t, t.mk(*[coerce(it, et).z for it, et in zip(items, t.elems)]))
     if isinstance(t, TAny):
         raise Unsupported('coerce %s -> %s' % (v.t, t))
     raise Unsupported('coerce %s -> %s' % (v.t, t))
